@@ -53,6 +53,15 @@ class C04(Check):
                 0x6CFE, 0x6D01, 0x6E00, 0x6E11, 0x6F00, 0x6F01, 0x8FFF, 0x9001, 0xFFFF}
         sws.discard(0x9000)
         self.quick_sws = sorted(s for s in sws if 0 <= s <= 0xFFFF)
+        # inner exchanges of a step kind (neither its first nor its last) in the quick tier: the
+        # named words +-1, range borders and the out-of-range representatives only
+        small = set()
+        for n in list(named) + [0x69A0, 0x6BFF, 0x6D00]:
+            small |= {n - 1, n, n + 1}
+        small |= {0x0000, 0x6100, 0x6700, 0x6982, 0x6C00, 0x6E00, 0x6F00, 0x6F01, 0x9001, 0xFFFF,
+                  0x6A01, 0x6A99, 0x6B00, 0x6B10, 0x6BEE, 0x6BF1}
+        small.discard(0x9000)
+        self.small_sws = sorted(x for x in small if 0 <= x <= 0xFFFF)
         # nominal runs: number of exchanges and step kinds
         self.nominal = {}
         self.pre_violations = []
@@ -95,7 +104,8 @@ class C04(Check):
                         cs.append({"name": name, "idx": idx, "sw_lo": lo, "sw_hi": lo + 0x2000,
                                    "other": lo == 0})
                 else:
-                    cs.append({"name": name, "idx": idx, "other": True})
+                    cs.append({"name": name, "idx": idx, "other": True,
+                               "small": (not self.thorough) and not edge})
         return cs
 
     def run(self, name, fault_at):
@@ -130,7 +140,7 @@ class C04(Check):
         if "sw_lo" in case:
             sws = [s for s in range(case["sw_lo"], case["sw_hi"]) if s != 0x9000]
         else:
-            sws = self.quick_sws
+            sws = self.small_sws if case.get("small") else self.quick_sws
         for sw in sws:
             self.one(name, idx, ("sw", sw), stats, vs)
         if case.get("other"):
